@@ -556,7 +556,7 @@ impl Property for C16 {
         "C16"
     }
     fn rule(&self) -> String {
-        "coercions: for each argument type (Int, Bool, Bytes, Address, UtxoRef, Undefined) a random value v (ints from the i128 boundary set, byte strings of 0..100 bytes, every Shelley address kind, refs with index up to u32::MAX) and each admissible encoding e (decimal string, JSON number below 2^64, 0x + 32 hex digits two's complement; true/false, 0/1, \"true\"/\"false\"; hex with and without 0x in either case, {content|bytecode|payload, contentType|encoding: hex|base64}; bech32 / hex; txid#index): from_json(e(v), type) = v; per type 4..10 ill-formed shapes must be refused (for Bool also the JSON numbers 1.0, 0.0, -0, 1e0, 10e-1 ... parsed from text, and near-miss strings); random JSON against every type must not panic. requests: templates lowered from generated programs (declared types known) or random IR trees, declared parameters split between `args` and `env`, some missing, undeclared extras, envelopes intact or corrupted in content / encoding / version (10 variants), or a random JSON document: serde_json::from_value::<ResolveParams> + parse_resolve_request must return Ok or Err and, when Ok, the argument map must equal the declared subset of args + env coerced by the declared types; one request in five carries an ill-formed value for a declared parameter (under args or env) and must be refused; metamorphic: the same request padded with 30..45 undeclared entries (and, half of the time, with one declared parameter present in both maps) must be accepted / refused alike and hand over the same argument map. Non-trivial: every case; distinct = distinct JSON documents.".into()
+        "coercions: for each argument type (Int, Bool, Bytes, Address, UtxoRef, Undefined) a random value v (ints from the i128 boundary set, byte strings of 0..100 bytes, every Shelley address kind, refs with index up to u32::MAX) and each admissible encoding e (decimal string, JSON number below 2^64, 0x + 32 hex digits two's complement; true/false, 0/1, \"true\"/\"false\"; hex with and without 0x in either case, {content|bytecode|payload, contentType|encoding: hex|base64}; bech32 / hex; txid#index): from_json(e(v), type) = v; per type 4..10 ill-formed shapes must be refused (for Bool also the JSON numbers 1.0, 0.0, -0, 1e0, 10e-1 ... parsed from text, and near-miss strings); random JSON against every type must not panic. deep requests: IR payloads with 11 kinds of expression wrapper nested 50..100000 deep in a typed position, wrapped into a request and handed to parse_resolve_request by an unoptimised probe binary on a 2 MiB thread. requests: templates lowered from generated programs (declared types known) or random IR trees, declared parameters split between `args` and `env`, some missing, undeclared extras, envelopes intact or corrupted in content / encoding / version (10 variants), or a random JSON document: serde_json::from_value::<ResolveParams> + parse_resolve_request must return Ok or Err and, when Ok, the argument map must equal the declared subset of args + env coerced by the declared types; one request in five carries an ill-formed value for a declared parameter (under args or env) and must be refused; metamorphic: the same request padded with 30..45 undeclared entries (and, half of the time, with one declared parameter present in both maps) must be accepted / refused alike and hand over the same argument map. Non-trivial: every case; distinct = distinct JSON documents.".into()
     }
     fn assumptions(&self) -> Vec<String> {
         vec![
@@ -573,12 +573,50 @@ impl Property for C16 {
         }
     }
     fn required_features(&self, _tier: Tier) -> Vec<String> {
-        ["encoding/Int:0x-16-bytes-be", "encoding/Int:json-number", "encoding/Bytes:envelope-base64", "encoding/Address:bech32", "encoding/UtxoRef:txid#index", "requests/ok", "requests/err", "requests/param-via-env", "requests/undeclared-extra", "requests/corrupted-envelope", "requests/ill-formed-value-via-env", "requests/ill-formed-value-via-args", "requests/metamorphic-padded", "requests/metamorphic-key-in-both-maps", "requests/case-variant-decoy-in-the-other-map", "encoding/Int:json-number-beyond-64-bits"]
+        ["encoding/Int:0x-16-bytes-be", "encoding/Int:json-number", "encoding/Bytes:envelope-base64", "encoding/Address:bech32", "encoding/UtxoRef:txid#index", "requests/ok", "requests/err", "requests/param-via-env", "requests/undeclared-extra", "requests/corrupted-envelope", "requests/ill-formed-value-via-env", "requests/ill-formed-value-via-args", "requests/metamorphic-padded", "requests/metamorphic-key-in-both-maps", "requests/case-variant-decoy-in-the-other-map", "encoding/Int:json-number-beyond-64-bits", "stack-probe/err"]
             .iter()
             .map(|s| s.to_string())
             .collect()
     }
     fn supervisor_phase(&self, ctx: &mut Ctx, env: &Env) {
+        // requests whose IR payload is nested deep in a typed position, handed to parse_resolve_request on a 2 MiB
+        // thread of an unoptimised build (what a server built with `cargo run` executes): it has to answer with
+        // an error, not die of a stack overflow
+        {
+            use crate::props::c11::{deep_payload, DEEP_DEPTHS, DEEP_WRAPPERS};
+            let mut inputs: Vec<(String, Vec<u8>)> = vec![];
+            for wi in 0..DEEP_WRAPPERS {
+                for d in DEEP_DEPTHS {
+                    let (w, b) = deep_payload(wi, d);
+                    inputs.push((format!("{w}@{d}"), b));
+                }
+            }
+            match stack_probe_mode(env, "C16", "request", &inputs) {
+                None => ctx.inconclusive("stack-probe:unusable"),
+                Some(results) => {
+                    for (name, o) in results {
+                        ctx.eval();
+                        ctx.nontrivial_str(&format!("stack-probe:{name}"));
+                        let depth: usize = name.split('@').nth(1).and_then(|d| d.parse().ok()).unwrap_or(0);
+                        match o {
+                            ProbeOutcome::Ok => ctx.count("stack-probe/ok"),
+                            ProbeOutcome::Err => ctx.count("stack-probe/err"),
+                            ProbeOutcome::Panic => {
+                                ctx.count("stack-probe/panic");
+                                ctx.violation("request-panic:dev-profile:2MiB-thread", json!({"payload": name}));
+                            }
+                            ProbeOutcome::Killed(sig) => {
+                                ctx.count("stack-probe/abort");
+                                ctx.violation(
+                                    format!("abort:signal:{sig}:request:dev-profile:2MiB-thread:depth{}", if depth <= 256 { "<=256" } else { ">256" }),
+                                    json!({"payload": name, "depth": depth, "what": "parse_resolve_request on a 2 MiB thread in an unoptimised build was killed by a signal (stack overflow)"}),
+                                );
+                            }
+                        }
+                    }
+                }
+            }
+        }
         if ctx.tier == Tier::Thorough {
             // hex / base64 / bech32 / serde_json `unsafe` code reached with hostile strings: the same cases under Miri
             miri_cross_run(ctx, env, "C16", &[MiriPlan { phase: "coercions", cases: 320 }, MiriPlan { phase: "requests", cases: 64 }], 540);
